@@ -42,16 +42,25 @@ ASSUMPTIONS = [
     "inputs are at most a few MiB; the budget formula is the harness's restatement of 'modest function of input and request size'",
     "held means: held on the cases enumerated",
 ]
-MINIMA = {"quick": {"cases": 2500, "raised": 800, "returned": 500, "crafted_cases": 60}, "thorough": {"cases": 60000}}
+MINIMA = {"quick": {"cases": 2500, "raised": 800, "returned": 500, "crafted_cases": 60}, "thorough": {"cases": 100000}}
 MECH = "resources"
 REQ = 3 * 65536
 _CACHE = {}
 
 
+VARIANTS = {"quick": 1, "thorough": 4}
+_TIER = ["quick"]
+
+
 def inputs(seed: int):
-    if seed not in _CACHE:
-        _CACHE[seed] = corpus.build_inputs(rng_for(seed, "corpus"))
-    return _CACHE[seed]
+    """The corpus: one set of valid inputs in the quick tier, four differently drawn sets in the thorough tier."""
+    key = (seed, _TIER[0])
+    if key not in _CACHE:
+        out = []
+        for v in range(VARIANTS[_TIER[0]]):
+            out += corpus.build_inputs(rng_for(seed, "corpus", v) if v else rng_for(seed, "corpus"))
+        _CACHE[key] = out
+    return _CACHE[key]
 
 
 def field_values(size: int, cur: int, off: int, fsize: int) -> list[tuple[str, int]]:
@@ -70,6 +79,7 @@ def field_values(size: int, cur: int, off: int, fsize: int) -> list[tuple[str, i
 
 def plan(tier: str, seed: int) -> list[dict]:
     cases = []
+    _TIER[0] = tier
     inps = inputs(seed)
     rng = rng_for(seed, ID, "plan")
     for ii, inp in enumerate(inps):
@@ -88,14 +98,14 @@ def plan(tier: str, seed: int) -> list[dict]:
         for b in inp.bounds:
             for d in ((0,) if tier == "quick" else (-1, 0, 1)):
                 cases.append({"k": "trunc", "inp": ii, "at": b + d})
-        for j in range(6 if tier == "quick" else 80):
+        for j in range(6 if tier == "quick" else 150):
             cases.append({"k": "trunc", "inp": ii, "at": rng.randrange(0, len(raw))})
-        for j in range(25 if tier == "quick" else 600):
+        for j in range(25 if tier == "quick" else 1500):
             cases.append({"k": "rand", "inp": ii, "j": j})
     crafted = ["hv-self", "hv-pair", "hv-chain", "shot-self", "shot-pair", "shot-mid-self", "shot-base-mid", "vmdk-self-parent", "vhdx-self-parent",
                "qcow2-bomb", "vmdk-bomb", "vmtar-gzbomb", "vmx-nested", "vmx-giant", "keystore-deep", "qcow2-snap-zero-table", "vmdk-desc-giant"]
     for c in crafted:
-        for r in range(4 if tier == "quick" else 20):
+        for r in range(4 if tier == "quick" else 40):
             cases.append({"k": "crafted", "c": c, "r": r, "weight": 4})
     return cases
 
@@ -106,6 +116,7 @@ def run(case: dict, ctx) -> dict:
     k = case["k"]
     if k == "crafted":
         return _crafted(case, ctx, res)
+    _TIER[0] = ctx.tier
     inp = inputs(ctx.seed)[case["inp"]]
     raw = bytearray(corpus.get_raw(inp))
     label = ""
